@@ -128,6 +128,16 @@ func checkC04(c ParamCase) (f *report.Failure, nparams int, decidedBy string) {
 			return report.Failf("param-value", "query %q (df=%q): parameter %d is %#v (%T), want the query's value %#v (%T) in left-to-right order; all: %#v", text, c.DF, i, params[i], params[i], want, want, params), len(params), ""
 		}
 	}
+	// the returned slice belongs to the caller: scribbling over it must not change
+	// what the next call returns
+	keep := append([]any(nil), params...)
+	for i := range params {
+		params[i] = "scribbled by the caller"
+	}
+	if psqlAgain, paramsAgain, errAgain := toPGParam(text, c.DF); errAgain != nil || psqlAgain != psql || !reflect.DeepEqual(paramsAgain, keep) {
+		return report.Failf("result-aliased", "ToParameterizedPostgres(%q, df=%q) returned %#v; after the caller overwrote that slice the same call returns %q %#v (%v)", text, c.DF, keep, psqlAgain, paramsAgain, errAgain), len(keep), ""
+	}
+	params = keep
 	// equivalence of the two texts
 	wi, err := sqlx.ParseWhere(sql)
 	if err != nil {
